@@ -280,6 +280,14 @@ type Source struct {
 
 func NewSource(b []byte) *Source { return &Source{Data: b, FailAt: -1} }
 
+// SetPos places the read position before the source is handed over (-1: end).
+func (s *Source) SetPos(at int) {
+	if at < 0 || at > len(s.Data) {
+		at = len(s.Data)
+	}
+	s.pos = int64(at)
+}
+
 // RichSource is a Source that also offers ReadByte, ReadAt and WriteTo (what
 // *os.File, bytes.Reader and bufio.Reader offer); every such call is a source
 // call like Read: it is counted, fragmented and subject to the injected fault.
